@@ -28,7 +28,7 @@ def plan(tier, seed):
         n = {"two": 6, "three": 5, "four": 3, "merge": 3, "five": 1}[tpl] * (1 if q else 5)
         specs.append({"name": "dual-" + tpl, "kind": "dual", "tpl": tpl, "n": n, "timeout": 2400})
     specs.append({"name": "invariance", "kind": "invariance", "n": 6 if q else 40, "timeout": 2400})
-    specs.append({"name": "yaml", "kind": "yaml", "timeout": 2400})
+    specs.append({"name": "yaml", "kind": "yaml", "once": True, "timeout": 2400})
     specs.append({"name": "ancient", "kind": "ancient", "n": 4 if q else 24, "timeout": 2400})
     specs.append({"name": "ancient5", "kind": "ancient5", "n": 4 if q else 12, "timeout": 2400})
     for b in range(3 if q else 8):
